@@ -42,6 +42,10 @@ Dispatch(e) ==
     [] e.act = "SetArgs"           -> SetArgs(e.c, e.x, e.how)
     [] e.act = "SetNp"             -> SetNp(e.c, e.x, e.how)
     [] e.act = "DelNp"             -> DelNp(e.c, e.how)
+    [] e.act = "SetRi"             -> SetRi(e.c, e.x, e.how)
+    [] e.act = "DelRi"             -> DelRi(e.c, e.how)
+    [] e.act = "SetIp"             -> SetIp(e.c, e.x, e.how)
+    [] e.act = "DelIp"             -> DelIp(e.c, e.how)
     [] e.act = "SetGlobal"         -> SetGlobal(e.x)
     [] e.act = "SetStageVar"       -> SetStageVar(e.st, e.x)
     [] e.act = "SetPlatformGlobal" -> SetPlatformGlobal(e.p, e.x)
